@@ -13,6 +13,7 @@ import (
 	"testing"
 	"time"
 
+	zrsa "github.com/zmap/zcrypto/rsa"
 	"github.com/zmap/zcrypto/x509"
 	"github.com/zmap/zcrypto/x509/pkix"
 	"github.com/zmap/zcrypto/x509/revocation/ocsp"
@@ -501,7 +502,9 @@ func craftEM(k *stdrsa.PrivateKey, alg certgen.StdAlg, digest []byte, op int, ex
 	copy(db[len(db)-sLen:], salt)
 	switch op % 6 {
 	case 0:
-		db[(len(extra)*5)%(len(db)-sLen-1)] |= 0x01 // non-zero padding octet (bit 0, so it survives the top-bit mask)
+		// non-zero padding octet; low bits, so that it survives the top-bit mask at position 0; not
+		// always 0x01, which a verifier that searches for the delimiter would take for the delimiter
+		db[(len(extra)*5)%(len(db)-sLen-1)] |= []byte{0x01, 0x02, 0x03, 0x02}[(len(extra)+op/6)%4]
 		what = "em-pss-padding-not-zero"
 	case 1:
 		db[len(db)-sLen-1] = 2
@@ -584,6 +587,31 @@ func check(c Case, r *kit.R) {
 		r.Class("mutated-valid-but-rejected:" + what) // stricter than mathematical validity: allowed
 	default:
 		r.Class("mutated-rejected")
+	}
+	// RSASSA-PSS through the verification function itself, in the salt-length modes the
+	// certificate path never uses (automatic detection, nil options, explicit length): the verdict
+	// on the mutated triple must be the standard library's (RFC 8017 9.1.2 leaves no choice)
+	if al2, known := algOf(a2); known && al2.PSS && k2.Kind == "rsa" {
+		zp, zok := k2.ZPub.(*zrsa.PublicKey)
+		sp, sok := k2.StdPub.(*stdrsa.PublicKey)
+		if zok && sok {
+			d := digestOf(al2.Hash, msg2)
+			for _, mode := range []int{stdrsa.PSSSaltLengthAuto, stdrsa.PSSSaltLengthEqualsHash, al2.Hash.Size(), -2} {
+				var zo *zrsa.PSSOptions
+				var so *stdrsa.PSSOptions
+				if mode != -2 {
+					zo, so = &zrsa.PSSOptions{SaltLength: mode}, &stdrsa.PSSOptions{SaltLength: mode}
+				}
+				var zerr error
+				gg := kit.GuardInline(func() { zerr = zrsa.VerifyPSS(zp, al2.Hash, d, sig2, zo) })
+				r.Must(gg, "rsa.VerifyPSS("+what+")")
+				serr := stdrsa.VerifyPSS(sp, al2.Hash, d, sig2, so)
+				if (zerr == nil) != (serr == nil) {
+					r.Failf("C03:pss-verdict:"+what, "rsa.VerifyPSS (salt mode %d; -2 = nil options) says %v, crypto/rsa says %v for key %s, %v, mutation %s\nsig=%x", mode, zerr, serr, k2.Name, a2, what, sig2)
+				}
+			}
+			r.Class("pss-direct-verification-all-salt-modes")
+		}
 	}
 }
 
